@@ -556,13 +556,15 @@ impl SyncResponder {
         provider: &mut impl StorageProvider,
     ) -> Result<usize, SyncError> {
         if self.next_send >= self.to_send.len() {
-            self.state = SyncResponderState::Idle;
             let message = SyncResponseMessage::SyncEnd {
                 session_id: self.session_id()?,
                 max_index: self.message_index as u64,
                 remaining: false,
             };
             let length = Self::write(target, message)?;
+            // Only go idle once the end message has been written, so the
+            // caller can retry with a larger buffer.
+            self.state = SyncResponderState::Idle;
             return Ok(length);
         }
 
